@@ -123,33 +123,116 @@ _CANON = None
 
 
 def canonical_params(N, ast, lang: str, kind: str, name: str) -> int:
-    """Normalisation applied to every parsed template: the parameters of the macros the rules talk about are given the names the
-    rules use (frozen in canon_params.json, by macro and position).  Renaming a parameter in a macro signature - `t` to
-    `array_type`, `n_bits` to `alignment_bits` - therefore changes nothing for any rule; a macro whose arity differs from the
-    table, or that is not in it (a new helper), is left as it is."""
+    """Normalisation applied to every parsed template: the macros the rules talk about, and their parameters, are given the names the
+    rules use (frozen in canon_params.json per template, in file order).  A macro is matched by name; macros that are not found by
+    name are matched to the table's unmatched entries by position when their number and arities agree (a pure rename).  Renaming
+    a private macro or a parameter in a macro signature - `t` to `array_type`, `n_bits` to `alignment_bits` - therefore changes
+    nothing for any rule; a macro whose arity differs from the table, or a new helper, is left as it is."""
     global _CANON
     if _CANON is None:
         import json
         _CANON = json.loads((pathlib.Path(__file__).parent / "canon_params.json").read_text())
+    table = _CANON.get(f"{lang}/{kind}/{name}")
+    if not table:
+        return 0
+    macros = sorted(ast.find_all(N.Macro), key=lambda m: m.lineno)
+    by_name = {m.name: m for m in macros}
+    want_of = {}
+    left_t = [e for e in table if e[0] not in by_name]
+    left_m = [m for m in macros if m.name not in {e[0] for e in table}]
+    for e in table:
+        if e[0] in by_name:
+            want_of[id(by_name[e[0]])] = e
+    referenced = {c.name for c in ast.find_all(N.Name)}
+    # a pure rename leaves no reference to the old name behind; if one is left (a call site that was not updated) the template is
+    # broken and must be seen as it is
+    if left_t and len(left_t) == len(left_m) and all(len(e[1]) == len(m.args) for e, m in zip(left_t, left_m)) \
+            and not any(e[0] in referenced for e in left_t):
+        renames = {m.name: e[0] for e, m in zip(left_t, left_m)}
+        for e, m in zip(left_t, left_m):
+            want_of[id(m)] = e
+            m.name = e[0]
+        for c in ast.find_all(N.Name):
+            if c.name in renames:
+                c.name = renames[c.name]
     total = 0
-    for m in ast.find_all(N.Macro):
-        want = _CANON.get(f"{lang}/{kind}/{name}:{m.name}")
-        have = [a.name for a in m.args]
-        if want is None or len(want) != len(have) or want == have:
+    for m in macros:
+        e = want_of.get(id(m))
+        if e is None:
             continue
-        nodes = [m] + _scope_nodes(N, m)
+        want = e[1]
+        have = [a.name for a in m.args]
+        if len(want) != len(have) or want == have:
+            continue
         used = {x.name for x in m.find_all(N.Name)} | set(have)
-        # two steps through temporaries so that swaps and collisions with other locals are harmless
-        tmp = {h: f"__p{i}__" for i, h in enumerate(have)}
         clash = [w for w, h in zip(want, have) if w != h and w in used and w not in have]
         if clash:
             continue      # the canonical name is taken by another variable of this macro: leave the macro alone
+        tmp = {h: f"__p{i}__" for i, h in enumerate(have)}
         for mapping in (tmp, {tmp[h]: w for h, w in zip(have, want)}):
             for x in list(m.find_all(N.Name)) + list(m.args):
                 if x.name in mapping:
                     x.name = mapping[x.name]
         total += 1
     return total
+
+
+_KIND_SUFFIX = {"VoidType": "void", "BooleanType": "boolean", "IntegerType": "integer", "FloatType": "float", "FixedLengthArrayType": "fixed_length_array",
+                "VariableLengthArrayType": "variable_length_array", "CompositeType": "composite"}
+
+
+def canonical_macro_names(N, ast, name: str) -> int:
+    """Normalisation for the codec templates (serialization.j2 / deserialization.j2): the private macros get the names the rules use,
+    found by *role* - the macro with the `t is <Kind>Type` dispatch chain is `_(de)serialize_any`, the macro each branch calls is
+    `_(de)serialize_<kind>`, the macro the exported entry point calls is `_(de)serialize_impl`, the one-parameter macro called with an
+    alignment requirement is `_pad_to_alignment`.  Renaming a private macro therefore changes nothing for any rule."""
+    if name not in ("serialization.j2", "deserialization.j2"):
+        return 0
+    prefix = "_serialize_" if name == "serialization.j2" else "_deserialize_"
+    macros = {m.name: m for m in ast.find_all(N.Macro)}
+    rename = {}
+    for m in macros.values():
+        if not m.args:
+            continue
+        p0 = m.args[0].name
+        for iff in m.find_all(N.If):
+            branches = [(iff.test, iff.body)] + [(e.test, e.body) for e in iff.elif_]
+            kinds = []
+            for test, body in branches:
+                if isinstance(test, N.Test) and isinstance(test.node, N.Name) and test.node.name == p0 and test.name in _KIND_SUFFIX:
+                    callee = None
+                    for b in body:
+                        for c in [b] + list(b.find_all(N.Call)):
+                            if isinstance(c, N.Call) and isinstance(c.node, N.Name) and c.node.name in macros and callee is None:
+                                callee = c.node.name
+                    kinds.append((test.name, callee))
+            if len(kinds) >= 5:
+                rename[m.name] = prefix + "any"
+                for k, callee in kinds:
+                    if callee is not None and callee != m.name:
+                        rename.setdefault(callee, prefix + _KIND_SUFFIX[k])
+                break
+    entry = macros.get("serialize" if name == "serialization.j2" else "deserialize")
+    if entry is not None:
+        callees = [c.node.name for c in entry.find_all(N.Call) if isinstance(c.node, N.Name) and c.node.name in macros and len(macros[c.node.name].args) == len(entry.args)]
+        callees = [c for c in callees if c not in rename and c != "assert"]
+        if len(set(callees)) == 1:
+            rename.setdefault(callees[0], prefix + "impl")
+    for c in ast.find_all(N.Call):
+        if isinstance(c.node, N.Name) and c.node.name in macros and len(macros[c.node.name].args) == 1 and len(c.args) == 1 \
+                and xs(c.args[0]).endswith("alignment_requirement") and c.node.name not in rename:
+            rename[c.node.name] = "_pad_to_alignment"
+    rename = {a: b for a, b in rename.items() if a != b}
+    referenced = {c.name for c in ast.find_all(N.Name)}
+    if not rename or set(rename.values()) & (set(macros) - set(rename)) or set(rename.values()) & referenced:
+        return 0      # nothing to do, a canonical name is taken by another macro, or the old name is still referenced (dangling call)
+    for m in macros.values():
+        if m.name in rename:
+            m.name = rename[m.name]
+    for c in ast.find_all(N.Name):
+        if c.name in rename:
+            c.name = rename[c.name]
+    return len(rename)
 
 
 def inline_single_sets(N, ast) -> int:
@@ -257,6 +340,8 @@ class TemplateSet:
             except Exception as e:
                 raise AnalysisError(f"template {p} does not parse with the bundled parser: {type(e).__name__}: {e}")
             rel = p.relative_to(self.root).as_posix()
+            if kind == "templates":
+                canonical_macro_names(self.nodes, ast, p.name)
             canonical_params(self.nodes, ast, lang, kind, p.name)
             if os.environ.get("NVSA_J2_NOINLINE") != "1":
                 inline_single_sets(self.nodes, ast)
